@@ -38,6 +38,14 @@ type Result struct {
 	Counts map[string]int // kind -> count
 }
 
+// pkgVar is a package-level variable of an instrumented package that is
+// redirected to a per-run copy.
+type pkgVar struct {
+	obj      types.Object
+	accessor string // name of the generated accessor function
+	pkgPath  string
+}
+
 type loaded struct {
 	pkg   Pkg
 	files []*ast.File
@@ -141,10 +149,53 @@ func Run(targets []Pkg, resolve map[string]string) (*Result, error) {
 		ls = append(ls, l)
 	}
 	res := &Result{Counts: map[string]int{}}
+	// package-level variables of the instrumented packages get per-run copies
+	vars := map[types.Object]*pkgVar{}
+	type decl struct {
+		file *ast.File
+		spec *ast.ValueSpec
+		idx  int
+		v    *pkgVar
+		typ  types.Type
+	}
+	declsOf := map[*ast.File][]decl{}
+	for _, l := range ls {
+		for _, f := range l.files {
+			for _, d := range f.Decls {
+				gd, ok := d.(*ast.GenDecl)
+				if !ok || gd.Tok != token.VAR {
+					continue
+				}
+				for _, sp := range gd.Specs {
+					vs := sp.(*ast.ValueSpec)
+					if len(vs.Values) != 0 && len(vs.Values) != len(vs.Names) {
+						continue // tuple assignment from one call: left alone
+					}
+					for i, name := range vs.Names {
+						obj := l.info.Defs[name]
+						if name.Name == "_" || obj == nil {
+							continue
+						}
+						v := &pkgVar{obj: obj, accessor: name.Name + "__ptr", pkgPath: l.pkg.ImportPath}
+						vars[obj] = v
+						declsOf[f] = append(declsOf[f], decl{file: f, spec: vs, idx: i, v: v, typ: obj.Type()})
+					}
+				}
+			}
+		}
+	}
 	for _, l := range ls {
 		for i, f := range l.files {
-			in := &inst{fset: fset, info: l.info, skip: map[ast.Node]bool{}, chanR: map[*ast.RangeStmt]bool{}, selBlocks: map[*ast.BlockStmt]bool{}, blockPos: map[*ast.BlockStmt]token.Pos{}, res: res}
+			in := &inst{vars: vars, pkgPath: l.pkg.ImportPath, fset: fset, info: l.info, skip: map[ast.Node]bool{}, chanR: map[*ast.RangeStmt]bool{}, selBlocks: map[*ast.BlockStmt]bool{}, blockPos: map[*ast.BlockStmt]token.Pos{}, res: res}
 			astutil.Apply(f, in.pre, in.post)
+			for _, d := range declsOf[f] {
+				fn, err := in.accessorDecl(f, d.spec, d.idx, d.v, d.typ)
+				if err != nil {
+					return nil, err
+				}
+				f.Decls = append(f.Decls, fn...)
+				res.Counts["pkgvar"]++
+			}
 			if in.used {
 				astutil.AddImport(fset, f, SimrtPath)
 			}
@@ -177,6 +228,8 @@ func Run(targets []Pkg, resolve map[string]string) (*Result, error) {
 }
 
 type inst struct {
+	vars      map[types.Object]*pkgVar
+	pkgPath   string
 	fset      *token.FileSet
 	info      *types.Info
 	skip      map[ast.Node]bool
@@ -281,7 +334,7 @@ func (in *inst) post(c *astutil.Cursor) bool {
 		if in.skip[n] {
 			return true
 		}
-		c.Replace(&ast.ExprStmt{X: in.call("Send", in.site(n, "send"), n.Chan, n.Value)})
+		c.Replace(&ast.ExprStmt{X: in.call("Send", in.siteAt(n.Arrow, "send"), n.Chan, n.Value)})
 	case *ast.UnaryExpr:
 		if n.Op != token.ARROW || in.skip[n] {
 			return true
@@ -342,7 +395,30 @@ func (in *inst) post(c *astutil.Cursor) bool {
 		case in.pkgSel(n.Fun, "sync", "NewCond"):
 			n.Fun = in.rt("NewCond")
 		}
+	case *ast.Ident:
+		// a use of a package-level variable of an instrumented package
+		v := in.vars[in.info.Uses[n]]
+		if v == nil || v.pkgPath != in.pkgPath {
+			return true
+		}
+		if se, ok := c.Parent().(*ast.SelectorExpr); ok && se.Sel == n {
+			return true
+		}
+		if kv, ok := c.Parent().(*ast.KeyValueExpr); ok && kv.Key == n {
+			if _, isField := in.info.Uses[n].(*types.Var); isField && in.info.Uses[n].(*types.Var).IsField() {
+				return true
+			}
+		}
+		c.Replace(&ast.ParenExpr{X: &ast.StarExpr{X: &ast.CallExpr{Fun: ast.NewIdent(v.accessor)}}})
 	case *ast.SelectorExpr:
+		if v := in.vars[in.info.Uses[n.Sel]]; v != nil && v.pkgPath != in.pkgPath {
+			if id, ok := n.X.(*ast.Ident); ok {
+				if _, isPkg := in.info.Uses[id].(*types.PkgName); isPkg {
+					c.Replace(&ast.ParenExpr{X: &ast.StarExpr{X: &ast.CallExpr{Fun: &ast.SelectorExpr{X: ast.NewIdent(id.Name), Sel: ast.NewIdent(v.accessor)}}}})
+					return true
+				}
+			}
+		}
 		for _, nm := range []string{"WaitGroup", "Pool", "Mutex", "RWMutex", "Once", "Cond"} {
 			if in.pkgSel(n, "sync", nm) {
 				in.res.Counts["sync."+nm]++
@@ -405,6 +481,67 @@ func (in *inst) preemptList(list []ast.Stmt) []ast.Stmt {
 		out = append(out, st)
 	}
 	return out
+}
+
+// accessorDecl generates, for the package-level variable names[idx] of spec,
+//
+//	var x__slot simrt.Slot
+//	func x__ptr() *T { return simrt.PkgVar(&x__slot, func() *T { var v T = init; return &v }) }
+//
+// The original declaration stays (uninstrumented code may refer to it); every
+// use inside the instrumented packages goes through the accessor.
+func (in *inst) accessorDecl(f *ast.File, spec *ast.ValueSpec, idx int, v *pkgVar, t types.Type) ([]ast.Decl, error) {
+	var typeExpr ast.Expr
+	if spec.Type != nil {
+		typeExpr = spec.Type
+	} else {
+		// print the inferred type with the import names of this file
+		qual := func(p *types.Package) string {
+			if p.Path() == in.pkgPath {
+				return ""
+			}
+			for _, imp := range f.Imports {
+				path, _ := strconv.Unquote(imp.Path.Value)
+				if path == p.Path() {
+					if imp.Name != nil {
+						return imp.Name.Name
+					}
+					return p.Name()
+				}
+			}
+			return p.Name()
+		}
+		src := types.TypeString(t, qual)
+		e, err := parser.ParseExpr(src)
+		if err != nil {
+			return nil, fmt.Errorf("package variable %s: cannot express its type %s: %w", v.obj.Name(), src, err)
+		}
+		typeExpr = e
+	}
+	name := v.obj.Name()
+	slot := ast.NewIdent(name + "__slot")
+	local := ast.NewIdent("v")
+	vs := &ast.ValueSpec{Names: []*ast.Ident{local}, Type: typeExpr}
+	if idx < len(spec.Values) {
+		vs.Values = []ast.Expr{spec.Values[idx]}
+	}
+	ptrT := &ast.StarExpr{X: typeExpr}
+	mk := &ast.FuncLit{
+		Type: &ast.FuncType{Params: &ast.FieldList{}, Results: &ast.FieldList{List: []*ast.Field{{Type: ptrT}}}},
+		Body: &ast.BlockStmt{List: []ast.Stmt{
+			&ast.DeclStmt{Decl: &ast.GenDecl{Tok: token.VAR, Specs: []ast.Spec{vs}}},
+			&ast.ReturnStmt{Results: []ast.Expr{&ast.UnaryExpr{Op: token.AND, X: local}}},
+		}},
+	}
+	fn := &ast.FuncDecl{
+		Name: ast.NewIdent(v.accessor),
+		Type: &ast.FuncType{Params: &ast.FieldList{}, Results: &ast.FieldList{List: []*ast.Field{{Type: ptrT}}}},
+		Body: &ast.BlockStmt{List: []ast.Stmt{&ast.ReturnStmt{Results: []ast.Expr{
+			in.call("PkgVar", &ast.UnaryExpr{Op: token.AND, X: slot}, mk),
+		}}}},
+	}
+	slotDecl := &ast.GenDecl{Tok: token.VAR, Specs: []ast.Spec{&ast.ValueSpec{Names: []*ast.Ident{slot}, Type: in.rt("Slot")}}}
+	return []ast.Decl{slotDecl, fn}, nil
 }
 
 // reflectChanMethod returns the name of the channel method called on a
